@@ -37,6 +37,73 @@ def lattice(tier, seeded=(False, True), max_nm_q=64, max_nm_t=256, xs_q=(1, 2, 6
     return out
 
 
+def bit_lemma(ctx, run, S, nid, label, dt0):
+    """Fallback for the one coefficient that needs the bit constraints (the h coefficient) when the direct query times out:
+    three solver-decided steps instead of one.  With v_j := p_j + sum b 2^i substituted (the definition of the value),
+      (1) pure identity, NO side conditions:   2 N  ==  sum_i C_i * (b_i^2 - b_i),   C_i := N[b_i := -1, all other bits := 0]
+      (2) b_i^2 = b_i  =>  b_i^2 - b_i = 0                                   (one trivial query)
+      (3) all t_i = 0  =>  sum_i C_i t_i = 0                                 (t_i fresh reals: linear)
+    Together: under the side conditions N = 0.  Returns True iff all three are discharged."""
+    from dag import Norm
+    hook = run.out.get('hook') or {}
+    bools = [s_['node'] for s_ in hook.get('side', []) if s_['kind'] == 'bool']
+    defs = [s_ for s_ in hook.get('side', []) if s_['kind'] == 'value_def']
+    if not bools:
+        return False
+    nodes = run.core['nodes']
+    vname = lambda n: run.core['vars'][nodes[n][1]]['name']
+    bit_names = [vname(n) for n in bools]
+    def value_subst(bitvals):
+        sub = {}
+        for d in defs:
+            if nodes[d['v']][0] != 'v':
+                continue
+            def mk(norm, d=d):
+                f = norm.frac(d['p'])
+                for i, bn in enumerate(d['bits']):
+                    f = f + norm.frac(bn) * (1 << i)
+                return f
+            sub[vname(d['v'])] = mk
+        sub.update(bitvals)
+        return sub
+    T = run.T
+    n0 = Norm(run.core, terms=T, subst=value_subst({}))
+    N, den, _ = n0.nm(nid)
+    total = None
+    t0 = time.time()
+    for i, bn in enumerate(bit_names):
+        ni = Norm(run.core, terms=T, subst=value_subst({b: (-1 if b == bn else 0) for b in bit_names}))
+        Ci, deni, _ = ni.nm(nid)
+        if deni != den:
+            return False
+        bt = T.var(bn)
+        ti = T.sub(T.mul(bt, bt), bt)
+        term = T.mul(Ci, ti)
+        total = term if total is None else T.add(total, term)
+    lhs = T.sub(T.mul(T.const(2), N), total)
+    S.sync_terms(T)
+    a1, d1, _ = S.check(['(not (= t%d 0.0))' % lhs])
+    ok1 = ctx.D.record('valid-zero(bit-lemma identity)', label + ': 2N == sum_i C_i (b_i^2 - b_i) with v := p + sum b 2^i, no side conditions', a1, d1 + dt0, 'unsat',
+                       '(assert (not (= t%d 0.0)))' % lhs)
+    if not ok1:
+        ctx.inconclusive.append('bit lemma for %s: identity answered %s' % (label, a1))
+        return False
+    b0 = T.var(bit_names[0])
+    a2, d2, _ = S.check(['(= (* t%d t%d) t%d)' % (b0, b0, b0), '(not (= (- (* t%d t%d) t%d) 0.0))' % (b0, b0, b0)])
+    ctx.D.record('valid-zero(bit-lemma step)', 'b*b = b => b*b - b = 0', a2, d2, 'unsat')
+    k = len(bit_names)
+    decl = ' '.join('(declare-const lemma_t%d Real) (declare-const lemma_c%d Real)' % (i, i) for i in range(k))
+    S.send('(push 1)')
+    S.send(decl)
+    zeros = ['(= lemma_t%d 0.0)' % i for i in range(k)]
+    summ = '(+ %s 0.0)' % ' '.join('(* lemma_c%d lemma_t%d)' % (i, i) for i in range(k))
+    a3, d3, _ = S.check(zeros + ['(not (= %s 0.0))' % summ])
+    S.send('(pop 1)')
+    ctx.D.record('valid-zero(bit-lemma step)', 'all t_i = 0 => sum_i C_i t_i = 0 (%d terms)' % k, a3, d3, 'unsat')
+    ctx.notes.append('%s: decided through the bit lemma (%d bits, %.1fs to build)' % (label, k, time.time() - t0))
+    return a2 == 'unsat' and a3 == 'unsat'
+
+
 def residual_obligations(ctx, run, S, case, vout, what, key_prefix, pred='honest_rejected'):
     """valid-zero for every coefficient of the verifier's final linear form"""
     evs = run.residual_points(vout['events'])
@@ -58,8 +125,16 @@ def residual_obligations(ctx, run, S, case, vout, what, key_prefix, pred='honest
             if run.T.cval(num) == 0:
                 continue
             nontrivial += 1
-            ctx.solve(S, 'valid-zero', '%s residual[%s]' % (what, run.basis_name(b)), side + ['(not (= t%d 0.0))' % num],
-                      cfg=case['cfg'], key=key_prefix + ':residual', pred=pred)
+            label = '%s residual[%s]' % (what, run.basis_name(b))
+            ans, dt, _ = S.check(side + ['(not (= t%d 0.0))' % num])
+            if ans == 'unknown' and bit_lemma(ctx, run, S, nid, label, dt):
+                continue
+            smt = '\n'.join('(assert %s)' % a for a in (side + ['(not (= t%d 0.0))' % num]))
+            if not ctx.D.record('valid-zero', label, ans, dt, 'unsat', smt):
+                if ans in ('sat', 'unsat'):
+                    ctx.findings.append(Finding(ctx.pid, key_prefix + ':residual', 'valid-zero obligation %s answered %s (expected unsat)' % (label, ans), case['cfg'], pred))
+                else:
+                    ctx.inconclusive.append('valid-zero %s: solver answered %s' % (label, ans))
     return nontrivial
 
 
